@@ -116,6 +116,25 @@ def e6(ck: Check) -> None:
                 if allowed is not None and calls <= allowed[0]:
                     ck.ob("E6", fm, h, True, f"reviewed: {allowed[1]}", key=f"handler in {f.qualname}")
                     continue
+                # the reviewed "failed candidate search = unknown" handler, wherever its helper was moved or inlined: only the
+                # candidate search is guarded, and the handler does nothing but answer False / None
+                CS = {"node_attractor_seeds", "node_attractor_candidates", "root", "len"}
+
+                def says_unknown(body) -> bool:
+                    for st_ in body:
+                        if isinstance(st_, ast.Pass):
+                            continue
+                        if isinstance(st_, ast.Return) and (st_.value is None or is_false(st_.value) or is_none(st_.value)):
+                            continue
+                        if isinstance(st_, ast.Assign) and len(st_.targets) == 1 and isinstance(st_.targets[0], ast.Name) \
+                                and (is_false(st_.value) or is_none(st_.value)):
+                            continue
+                        return False
+                    return True
+                if calls and calls <= CS and calls & {"node_attractor_seeds", "node_attractor_candidates"} and says_unknown(h.body):
+                    ck.ob("E6", fm, h, True, "reviewed: a failed candidate search means 'unknown' (E4 decides what may follow)",
+                          key=f"handler in {f.qualname}")
+                    continue
                 ck.ob("E6", fm, h, False,
                       f"a RuntimeError from `{', '.join(sorted(c for c in calls if c))[:80]}` is absorbed here: limit and solver "
                       f"failures must reach the caller (the operation would go on and report success with a node left unexpanded, "
